@@ -8,7 +8,7 @@ import collections
 
 
 class Search(object):
-    def __init__(self, build, events, apply, digest, invariant, depth, max_transitions=None):
+    def __init__(self, build, events, apply, digest, invariant, depth, max_transitions=None, copy_state=None):
         self.build = build              # build() -> fresh world
         self.events = events            # events(world) -> list of event descriptors enabled in the world
         self.apply = apply              # apply(world, ev) -> outcome  (executes the real API call, mutates world)
@@ -16,6 +16,8 @@ class Search(object):
         self.invariant = invariant      # invariant(world_after, ev, outcome, hist, digest_before) -> list of violations
         self.depth = depth
         self.max_transitions = max_transitions
+        self.copy_state = copy_state    # optional: faithful deep copy of a world (then states are kept live, no replay)
+        self.live = {}
         self.states = 0
         self.transitions = 0
         self.max_depth = 0
@@ -25,6 +27,8 @@ class Search(object):
         self.outcomes = set()
 
     def replay(self, hist):
+        if self.copy_state is not None and tuple(hist) in self.live:
+            return self.copy_state(self.live[tuple(hist)])
         w = self.build()
         for ev in hist:
             self.apply(w, ev)
@@ -60,6 +64,8 @@ class Search(object):
                 k = self.digest(w2)
                 self.outcomes.add((ev if isinstance(ev, str) else repr(ev), k))
                 if k not in seen:
+                    if self.copy_state is not None:
+                        self.live[tuple(hist) + (ev,)] = w2
                     seen[k] = list(hist) + [ev]
                     self.states += 1
                     self.max_depth = max(self.max_depth, len(hist) + 1)
